@@ -51,7 +51,7 @@ def c01(tier, seed, case=None):
         pending += r['pending']
     counters, viols, samples, distinct = check_c01.adjudicate(pending)
     v.add_offline('check_c01.role-adjudication', counters['role_changes'], distinct, samples, viols, counters,
-                  guards={'role changes adjudicated': (counters['role_changes'], 0 if case else 10)})
+                  guards={'role changes adjudicated offline': (counters['role_changes'], 0 if case else 10)})
     return v
 
 
@@ -68,7 +68,7 @@ def c02(tier, seed, case=None):
     v.add_run(r)
     counters, viols, samples, distinct = check_c02.check_c02(r['_out'])
     v.add_offline('check_c02.strict-validator', counters['files'], distinct, samples, viols, counters,
-                  guards={'files validated': (counters['files'], 1 if case else 13 * 100), 'records decoded': (counters['records'], 0 if case else 1000)})
+                  guards={'files validated': (counters['files'], 1 if case else 13 * 250), 'records decoded': (counters['records'], 0 if case else 1000)})
     if tier == 'thorough' and not case:
         r2 = run_engine('C02', 'c02', 'release', tier, seed + 1000003)
         v.add_run(r2)
@@ -97,7 +97,7 @@ def c03(tier, seed, case=None):
             '(read, iter_shapes, read_as / iter_shapes_as when homogeneous) and the dumps are compared with the model. distinct = '
             '(type code, feature set, part counts); non-trivial = every file with >= 1 record',
             ['shpref.py encodes the whitepaper layouts correctly; it is the same module whose decoder validates the writer in C02 (each direction checks the other)'])
-    per = 100 if tier == 'quick' else 5000
+    per = 300 if tier == 'quick' else 5000
     gen_dir = os.path.join(OUT, 'C03', tier, 'gen')
     _rmtree(gen_dir)
     n = gen_c03.generate(gen_dir, seed, per)
@@ -173,7 +173,7 @@ def c06(tier, seed, case=None):
     for prof in _profiles(tier):
         v.add_run(run_engine('C06', 'c06', prof, tier, seed, opts={'foreign': gen_dir}, case=case))
     if tier == 'thorough' and not case:
-        v.add_run(run_miri('C06', 'c06', tier, seed))
+        v.add_run(run_miri('C06', 'c06', tier, seed, shards=8))
     if not v.violations:
         _rmtree(gen_dir)
     v.extra['exhaustive_scope'] = 'the (S,T) type matrix and the 14 variants are enumerated completely; shapes inside the files are sampled'
@@ -241,13 +241,13 @@ def c08(tier, seed, case=None):
     for prof in _profiles(tier):
         v.add_run(run_engine('C08', 'c08', prof, tier, seed, case=case))
     if tier == 'thorough' and not case:
-        v.add_run(run_miri('C08', 'c08', tier, seed))
+        v.add_run(run_miri('C08', 'c08', tier, seed, shards=8))
     return v
 
 
 # --------------------------------------------------------------------------------------- C09
 def c09(tier, seed, case=None):
-    n = 6 if tier == 'quick' else 8
+    n = 6 if tier == 'quick' else 9
     v = _mk('C09', tier, seed, 'exploration',
             'ALL words over {write a, write b, finalize} of length <= %d, for each of the 13 types (a, b of different sizes), with and '
             'without an index destination, three endings (drop; finalize then drop; consumption by write_shapes([a,b])); after every '
@@ -258,14 +258,14 @@ def c09(tier, seed, case=None):
     for prof in _profiles(tier):
         v.add_run(run_engine('C09', 'c09', prof, tier, seed, case=case))
     if tier == 'thorough' and not case:
-        v.add_run(run_miri('C09', 'c09', tier, seed))
+        v.add_run(run_miri('C09', 'c09', tier, seed, shards=16))
     v.extra['exhaustive_scope'] = 'all words of length <= %d over {Wa, Wb, F} x 13 types x {index, no index} x 3 endings; shapes a, b are fixed per type' % n
     return v
 
 
 # --------------------------------------------------------------------------------------- C10
 def c10(tier, seed, case=None):
-    n = 5 if tier == 'quick' else 7
+    n = 5 if tier == 'quick' else 8
     v = _mk('C10', tier, seed, 'exploration',
             'ALL 13 x 12 ordered pairs of distinct types (first type, offered type) x ALL words of length <= %d over {write T, write U, '
             'finalize} in which some write is rejected, through ShapeWriter (shp+shx) and through the complete Writer (shp+shx+dbf; '
@@ -291,7 +291,7 @@ def c11(tier, seed, case=None):
     for prof in _profiles(tier, quick=('checked',), thorough=('checked',)):
         v.add_run(run_engine('C11', 'c11', prof, tier, seed, case=case))
     if tier == 'thorough' and not case:
-        v.add_run(run_miri('C11', 'c11', tier, seed))
+        v.add_run(run_miri('C11', 'c11', tier, seed, shards=16))
     return v
 
 
@@ -307,14 +307,14 @@ def c12(tier, seed, case=None):
     for prof in _profiles(tier):
         v.add_run(run_engine('C12', 'c12', prof, tier, seed, case=case))
     if tier == 'thorough' and not case:
-        v.add_run(run_miri('C12', 'c12', tier, seed))
+        v.add_run(run_miri('C12', 'c12', tier, seed, shards=16))
     return v
 
 
 # --------------------------------------------------------------------------------------- C13
 def c13(tier, seed, case=None):
     v = _mk('C13', tier, seed, 'fault_enumeration',
-            'per file (13 types x 2 (quick) / 12 (thorough) files of 1..4 records): truncation at EVERY length of the .shp (with the '
+            'per file (13 types x 4 (quick) / 16 (thorough) files of 1..4 records): truncation at EVERY length of the .shp (with the '
             'intact .shx and without) and of the .shx; a fault at EVERY k-th read/seek of a full traversal (open, iterate to the end, '
             'read_nth_shape for each i) on each source, one-shot and persistent, attributed to the call in progress by op-log epochs; '
             'short-read schedules (1..8 bytes, PRNG sequences). distinct = (file, kind, L | k, mode); all non-trivial',
@@ -322,7 +322,7 @@ def c13(tier, seed, case=None):
     for prof in _profiles(tier):
         v.add_run(run_engine('C13', 'c13', prof, tier, seed, case=case))
     if tier == 'thorough' and not case:
-        v.add_run(run_miri('C13', 'c13', tier, seed))
+        v.add_run(run_miri('C13', 'c13', tier, seed, shards=16))
     return v
 
 
@@ -360,7 +360,7 @@ def c14(tier, seed, case=None):
 
 # --------------------------------------------------------------------------------------- C15
 def c15(tier, seed, case=None):
-    n = (4, 6, 4) if tier == 'quick' else (5, 8, 5)
+    n = (4, 6, 4) if tier == 'quick' else (6, 10, 6)
     v = _mk('C15', tier, seed, 'exploration',
             'ALL words of length <= %d over {iterate 0/1/2/all items, read_nth_shape(i) i=0..3, seek(k) k=0..3, shape_count} on a '
             'ShapeReader with index, <= %d over {iterate 0/1/2/all} without index, <= %d over {iterate.., seek(k), shape_count} on the '
@@ -370,7 +370,7 @@ def c15(tier, seed, case=None):
     for prof in _profiles(tier):
         v.add_run(run_engine('C15', 'c15', prof, tier, seed, case=case))
     if tier == 'thorough' and not case:
-        v.add_run(run_miri('C15', 'c15', tier, seed))
+        v.add_run(run_miri('C15', 'c15', tier, seed, shards=16))
     v.extra['exhaustive_scope'] = 'all call histories up to the stated lengths over the stated alphabets, n = 3 records'
     return v
 
@@ -431,7 +431,7 @@ def c20(tier, seed, case=None):
     for prof in _profiles(tier):
         v.add_run(run_engine('C20', 'c20', prof, tier, seed, case=case))
     if tier == 'thorough' and not case:
-        v.add_run(run_miri('C20', 'c20', tier, seed, opts={'n': 12}))
+        v.add_run(run_miri('C20', 'c20', tier, seed, opts={'n': 12}, shards=8))
     return v
 
 
